@@ -182,6 +182,8 @@ def gen_case(rng, size=1.0, mode=None, feats=None, divs=None, unison=0, same_pit
     p_orn = extras.get("ornament", 0.0)
     pnotes, alignment, truth = [], [], {}
     k = 0
+    wrong_notes = rng.random() < 0.3
+    n_wrong = [0]
     for r in rows:
         T, amp = times[r["onset_div"]]
         if rng.random() < p_del and len(rows) > 2:
@@ -198,7 +200,12 @@ def gen_case(rng, size=1.0, mode=None, feats=None, divs=None, unison=0, same_pit
         vel = rng.randint(1, 127)
         pid = f"p{k}"
         k += 1
-        pnotes.append({"id": pid, "midi_pitch": r["pitch"], "note_on": on, "note_off": on + dur, "velocity": vel,
+        # (a matched note may have been played on a neighbouring key: the match stands, the performed pitch differs)
+        played = r["pitch"]
+        if wrong_notes and rng.random() < 0.2:
+            played = min(127, max(0, r["pitch"] + rng.choice([-7, -4, -3, -2, -1, 1, 2, 3, 4, 7])))
+            n_wrong[0] += 1
+        pnotes.append({"id": pid, "midi_pitch": played, "note_on": on, "note_off": on + dur, "velocity": vel,
                        "track": 0, "channel": 0})
         alignment.append({"label": "match", "score_id": r["id"], "performance_id": pid})
         truth[r["id"]] = (pid, on, dur, vel)
@@ -253,6 +260,7 @@ def gen_case(rng, size=1.0, mode=None, feats=None, divs=None, unison=0, same_pit
     info = {"mode": mode, "notes": len(rows), "matched": len(truth), "onsets": len(groups),
             "chords": sum(1 for g in groups.values() if len(g) > 1), "graces": sum(1 for r in rows if r["grace"] and r["id"] in truth),
             "equal_key_groups": sum(1 for v in tie_keys.values() if len(v) > 1), "unison_added": nu, "same_pitch_grace_added": ng,
+            "matched_notes_played_on_another_key": n_wrong[0],
             "pickup": int(bool(meta.get("pickup"))), "features": feats, "divs": [d for _, d in meta["divs"]],
             "deleted": sum(1 for a in alignment if a["label"] == "deletion"),
             "inserted": sum(1 for a in alignment if a["label"] == "insertion"),
